@@ -22,7 +22,7 @@ RATE_LO = 2.0 ** -6     # smaller rates allow no error at all for the lengths in
 
 def extra_describe():
     return {
-        "functions": ["report.py:ErrorRanges.__init__/_compute_lengths/lengths"],
+        "functions": ["report.py:ErrorRanges.__init__/_compute_lengths/lengths", "report.py:histogram_rows", "adapters.py:EndStatistics.lengths/random_match_probabilities"],
         "bounds": {"quick": {"adapter length": "1..12", "rate": "every double in [2^-6, 1)"}, "thorough": {"adapter length": "1..20", "rate": "every double in [2^-6, 1)"}},
         "outside_bounds": ["rates below 2^-6 (no error is allowed for any length in the bound: trivial)", "lengths beyond the bound", "the text rendering __str__ (the list is what every report format is built from)"],
     }
@@ -30,7 +30,11 @@ def extra_describe():
 
 def extra_jobs(tier, seed):
     N = 12 if tier == "quick" else 20
-    return [{"name": "error_ranges/length=%d" % n, "engine": "symx", "length": n} for n in range(1, N + 1)]
+    out = [{"name": "error_ranges/length=%d" % n, "engine": "symx", "length": n} for n in range(1, N + 1)]
+    for kind in ("back", "front"):
+        for rate in (0.1, 0.25):
+            out.append({"name": "histogram_rows/%s/e=%s" % (kind, rate), "engine": "symx", "fn": "hist", "kind": kind, "rate": rate})
+    return out
 
 
 def fp_value(model, x):
@@ -70,8 +74,54 @@ def path(J, ctx, length):
     J.sample = {"fn": "ErrorRanges", "length": length, "symbolic": ["error rate (Float64)"]}
 
 
+def path_hist(J, ctx, kind, rate):
+    """report.histogram_rows (what the text report and the JSON 'trimmed_lengths' are built from) executed from source
+    on real EndStatistics whose (length, errors) cells hold symbolic counts: every row must reproduce the tally."""
+    import cutadapt.report as R
+    import cutadapt.adapters as A
+    from harness.common import sym_int
+    it = new_interp(ctx)
+    ad = (A.BackAdapter if kind == "back" else A.FrontAdapter)("ACGTACGTAC", max_errors=rate, min_overlap=3)
+    st = ad.create_statistics().end
+    # cells: removed length -> error count -> symbolic number of matches; includes matches with MORE errors than
+    # int(rate * length) for that removed length (a deletion in the read makes the removed part shorter than the
+    # aligned adapter part)
+    cells = {3: [0], 9: [0, 1], 10: [0, 1, 2], 12: [1, 2]}
+    sym = {}
+    for length, errs in cells.items():
+        for e in errs:
+            c = sym_int(ctx, "n_%d_%d" % (length, e), 0, 1000)
+            sym[(length, e)] = c
+            st.errors[length][e] = c
+
+    def mk(m):
+        return {"engine": "symx", "kind": "hist", "adapter_kind": kind, "rate": rate, "cells": {"%d,%d" % k: model_int(m, v) for k, v in sym.items()}}
+    rows = it.call_value(it.getattr(R, "histogram_rows"), [st, 1000, 0.5], {})
+    rows = {r.length: r for r in rows}
+    claims = [z3.BoolVal(sorted(rows) == sorted(cells))]
+    for length, errs in cells.items():
+        r = rows.get(length)
+        if r is None:
+            continue
+        total = V.isum([zint(sym[(length, e)]) for e in errs])
+        claims.append(zint(r.count) == total)
+        ec = list(r.error_counts)
+        claims.append(z3.BoolVal(len(ec) == max(errs) + 1))
+        for e in range(max(errs) + 1):
+            want = zint(sym[(length, e)]) if e in errs else V.ival(0)
+            if e < len(ec):
+                claims.append(zint(ec[e]) == want)
+        claims.append(z3.BoolVal(r.max_err == int(rate * min(length, 10))))
+    J.claim(ctx, z3.And(*claims), "histogram rows (report / JSON trimmed_lengths) differ from the tally of applied matches", mk)
+    J.witness(ctx, zint(sym[(9, 1)]) > 0)
+    J.nontrivial = 1
+    J.sample = {"fn": "histogram_rows", "adapter": kind, "rate": rate, "symbolic": ["match counts per (removed length, errors)"]}
+
+
 def run_job(job):
     J = Job(job)
+    if job.get("fn") == "hist":
+        return run_paths(J, lambda ctx: path_hist(J, ctx, job["kind"], job["rate"]), max_paths=20)
     J.vacuity_check = False   # satisfiability queries over FloatingPoint are slow; every path was found feasible when forked
     # integers as 32-bit vectors here (never wrapping: every term's interval is checked), so that the query stays
     # inside the FP/BV theories; mixing int(<double>) with mathematical integers is hopeless for the solver
@@ -92,6 +142,22 @@ def allowed_by_list(lengths, L):
 
 def replay(cex):
     import cutadapt.report as R
+    if cex.get("kind") == "hist":
+        import cutadapt.adapters as A
+        ad = (A.BackAdapter if cex["adapter_kind"] == "back" else A.FrontAdapter)("ACGTACGTAC", max_errors=cex["rate"], min_overlap=3)
+        st = ad.create_statistics().end
+        tally = {}
+        for k, v in cex["cells"].items():
+            length, e = map(int, k.split(","))
+            st.errors[length][e] = v
+            tally.setdefault(length, {})[e] = v
+        bad = []
+        for r in R.histogram_rows(st, 1000, 0.5):
+            t = tally[r.length]
+            want = [t.get(e, 0) for e in range(max(t) + 1)]
+            if r.count != sum(t.values()) or list(r.error_counts) != want:
+                bad.append((r.length, r.count, list(r.error_counts), want))
+        return bool(bad), "histogram_rows: (length, count, error_counts, tally) mismatches: %r" % (bad[:3],)
     length, rate = cex["length"], cex["rate"]
     lens = R.ErrorRanges(length=length, error_rate=rate).lengths()
     bad = []
